@@ -127,3 +127,16 @@ def f64to32 (b : Nat) : Nat :=
   else (if f64.sign b then 2 ^ 31 else 0) + 255 * 2 ^ 23 + (if f64.frac b = 0 then 0 else 2 ^ 22 + f64.frac b / 2 ^ 29)
 
 end Sf.Float
+
+namespace Sf.Float
+/-- quotient of two finite values rounded to the format (RNE); `b` must be non-zero.
+    The quotient is computed to `mbits + 3` extra bits plus a sticky bit, which determines RNE exactly. -/
+def Fmt.divDy (f : Fmt) (a b : Dy) : Nat :=
+  if a.m = 0 then f.ofDy ⟨a.neg != b.neg, 0, 0⟩ else
+  let shift := bitLen b.m + f.mbits + 3
+  let n := a.m * 2 ^ shift
+  let q := n / b.m
+  let sticky := if n % b.m = 0 then 0 else 1
+  f.ofDy ⟨a.neg != b.neg, 2 * q + sticky, a.e - b.e - (shift : Int) - 1⟩
+def Fmt.div (f : Fmt) (a b : Nat) : Nat := f.divDy (f.toDy a) (f.toDy b)
+end Sf.Float
